@@ -28,6 +28,19 @@ for d in sorted(glob.glob(os.path.join(V, 'seeded', '*'))):
                 res[prop] = '.'
     viol = [p + ('*' if res[p].endswith('*') else '') for p in sorted(res) if res[p].startswith('V')]
     und = [p for p in sorted(res) if res[p] == 'u']
+    if res and '--write-meta' in __import__('sys').argv and meta:
+        full = {}
+        for ln in open(f):
+            q = ln.split(None, 2)
+            if len(q) == 3:
+                v = 'VIOLATION' if ('VIOLATION' in q[2] or 'FAILED OBLIGATION' in q[2]) else 'UNDECIDED' if 'UNDECIDED' in q[2] else 'OK'
+                e = {'verdict': v}
+                fo = re.findall(r'FAILED OBLIGATION (\S+)', q[2])
+                if fo: e['failed_obligations'] = fo
+                if v == 'VIOLATION': e['concrete_input'] = 'no-failing-input-found' not in q[2] and 'VIOLATION property' in q[2]
+                full[q[1]] = e
+        meta['matrix'] = {'tool': 'tools/matrix.sh (snapshot of /verif, scratch copy of /repo with the patch)', 'results': full}
+        json.dump(meta, open(os.path.join(d, 'meta.json'), 'w'), indent=1)
     rows.append('| %s | %s | %s | %s |' % (mid, what.replace('|', '/'), ', '.join(viol) or '—', ', '.join(und) or '—'))
 print('| change | what it does (first sentence of the author\'s summary) | VIOLATION reported by (* = with a concrete failing input) | undecided (exit 2) |')
 print('|---|---|---|---|')
